@@ -164,7 +164,16 @@ CLAIMED = {
              "ignored tokens (comment_tokens_ignored); newline conversion with the default sequence is the identity. Tie: "
              "every string of length <=5 (quick) / <=6 (thorough) over 9 characters incl. partial delimiters and CR/LF, random "
              "long Unicode/control texts, random raw blocks and comments with look-alikes, rendered under 3 newline "
-             "sequences x keep_trailing_newline (x trim/lstrip) and compared with the model's data tokens.",
+             "sequences x keep_trailing_newline (x trim/lstrip) and compared with the model's data tokens; raw blocks and "
+             "comments stand after text / indentation at a line start made by LF, CRLF or lone CR and are followed by LF, "
+             "CRLF, CR, LF CR, FF, VT; every configuration is reached in 15 ways in rotation (fresh; Template(...); overlays of "
+             "used parents overriding everything / whitespace options / newline_sequence alone / keep_trailing_newline "
+             "alone / both / delimiters; chains; siblings; parent after its overlays). Environment histories "
+             "(harness/envways.py): for 6+ roots and every override set (newline_sequence alone, keep_trailing_newline alone, "
+             "every combination of the four whitespace options, prefixes, delimiters, none) overlays of fresh and used "
+             "Environment/Template roots, siblings, chains, parents re-used, random histories; at every use plain sources "
+             "with all three line breaks must render as the lexer model says for the options in effect and as a fresh "
+             "Environment does.",
         note="Trusted: Lean kernel; lexer model hand scanners (differentially validated); parser/compiler path for data-only "
              "templates is end-to-end only.",
         design_ref="§5 C11",
@@ -181,7 +190,10 @@ CLAIMED = {
              "(trim_rule); '-' on the right removes exactly the following whitespace (minus_right); with C39's "
              "removed_is_whitespace/lex_lossless non-whitespace is never removed from any source. Tie: text-tag-text triples "
              "with every sign combination x 12x12 whitespace runs (exhaustive in thorough), raw blocks with signs on four "
-             "sides, random skeletons, x 4 trim/lstrip settings x 3 delimiter sets x 11 ways of building the environment "
+             "sides, the same triples for every pair of whitespace runs involving CRLF / lone CR / CR and LF on either side "
+             "of the tag / LF CR / form feed / vertical tab (reference: Spec/Trim `documented` normalises the three line "
+             "breaks first; FF and VT are not line breaks), random skeletons over all runs, x 4 trim/lstrip settings x 3 "
+             "delimiter sets x 12 ways of building the environment "
              "(fresh; Template(...); overlay of a used parent overriding everything / only whitespace options / one "
              "whitespace option / only delimiters; overlay chain used at each level; overlay of a fresh parent; sibling "
              "overlays; parent after its overlays were used). Environment histories (harness/envways.py): for 4+ root option "
@@ -206,7 +218,8 @@ CLAIMED = {
              "key (lexer_cache_transparent). Tie: random skeletons unparsed by the Lean reference into 8 delimiter sets x 4 "
              "trim/lstrip settings and rendered through Environment / Template(...) / overlay / overlay chains, interleaved; "
              "60-200 further configurations cycle the caches and the first environments are re-checked; whole-line tags and "
-             "comments rewritten as line statements/comments (3 prefix sets). Environment histories (harness/envways.py): for "
+             "comments rewritten as line statements/comments (3 prefix sets; lines end in LF, CRLF, lone CR or a mixture); "
+             "skeleton texts, raw bodies and probe sources carry all three line breaks. Environment histories (harness/envways.py): for "
              "4+ root option sets and every override set (each of trim_blocks, lstrip_blocks, newline_sequence, "
              "keep_trailing_newline alone, all 11 combinations, line prefixes both/one/removed, delimiter sets, mixtures, "
              "none) an overlay of the fresh and of the already used root (Environment(...) or Template(...).environment), "
